@@ -273,7 +273,7 @@ Init == /\ (IF Scope = "grid" THEN (GridInit /\ rid = 0) ELSE HistInit)
 (* Operations on one result object                                         *)
 (***************************************************************************)
 HistNames == {"asd", "ps", "Gxy", "coh", "cf_db", "cf_deg_unwrapped", "GyySx", "GyyCx", "Hxy_deg_error", "Gyy_dev", "Gxx_error",
-              "coh_dev", "cs", "Hyx", "Gxy_emp_dev", "Gxx_emp_dev", "YY_mean", "XY_M2"}
+              "coh_dev", "cs", "Hyx", "Gxy_emp_dev", "Gxx_emp_dev", "YY_mean", "XY_M2", "Gxy_error", "Hxy_mag_error"}
 Get(name) ==
     /\ Len(hist) < MaxHist
     /\ cache' = Closure(res.iscsd, cache \cup {name})
